@@ -15,6 +15,7 @@ import json
 import os
 import random
 import sys
+import threading
 import time
 
 import core
@@ -60,8 +61,10 @@ def build_jobs(tier, rng):
         add("lit", "short", s)
         if i < n_le2 or i % 4 == 0:
             add("const", "short", s)
+        if s and (i < n_le2 or i % 4 == 1):
+            add("arrforce", "short", s)
         for lim in L.SMALL_LIMITS_SHORT:
-            if len(s) >= 2 and (not quick or i < n_le2 or (i + lim) % 3 == 0):
+            if len(s) >= 2 and (i < n_le2 or (i + lim) % (3 if quick else 2) == 0):
                 add("split", "short", s, limit=lim)
 
     for b in range(256):
@@ -70,24 +73,27 @@ def build_jobs(tier, rng):
         add("ustr", "unicode", ustr=u, expect=list(u.encode("utf8")))
 
     cores = L.adversarial_cores()
+    shift = rng.randrange(12)      # quick: which alignments are taken depends on the seed
     # every alignment of every core relative to a small chunk limit
     for ci, core_ in enumerate(cores):
         for lim in L.SMALL_LIMITS_ADV:
-            if quick and (ci + lim) % 3:
+            if quick and (ci + lim + shift) % 3:
                 continue
             for pre in range(0, lim + 2):
                 add("split", "adv-small", b"a" * pre + core_ + b"zz" + core_, limit=lim, core=core_.hex())
+    for core_ in cores:
+        add("arrforce", "adv-array", b"a" + core_ + b"z" + core_, core=core_.hex())
     # ... and relative to the real limit of 2000 characters, through the two real emitters
     offs = range(1984, 2002)
     for ci, core_ in enumerate(cores):
         for oi, pre in enumerate(offs):
-            if quick and (ci + oi) % 6:
+            if quick and (ci + oi + shift) % 12:
                 continue
             data = b"a" * pre + core_ + b"b" * 7 + core_
             add("const" if (ci + oi) % 2 else "lit", "adv-2000", data, core=core_.hex())
     # second chunk end: filler so that another core meets offset ~4000 of the escaped text
     for ci, core_ in enumerate(cores):
-        if quick and ci % 5:
+        if quick and (ci + shift) % 12:
             continue
         for pre in (1993, 1996, 1998, 1999):
             data = b"a" * pre + core_ + b"c" * (1990 - len(core_)) + core_ + core_ + b"d" * 9 + core_
@@ -104,7 +110,7 @@ def build_jobs(tier, rng):
             for pre in (0, 1, 2):
                 add("split", "bsrun-small", b"x" * pre + b"\\" * max(n, 1) + b"n", limit=lim, run=n)
     # random long strings, heavy in special characters
-    for _ in range(40 if quick else 1200):
+    for _ in range(40 if quick else 500):
         add("const" if rng.random() < 0.5 else "lit", "random-long", L.weighted_random_bytes(rng, rng.randint(700, 2600)))
     for _ in range(300 if quick else 6000):
         add("split", "random-small", L.weighted_random_bytes(rng, rng.randint(4, 40)), limit=rng.choice(L.SMALL_LIMITS_ADV))
@@ -121,9 +127,11 @@ def build_jobs(tier, rng):
         add("numtab", "numtab", digits=digits, expect=list(b"\0".join(d.encode() for d in digits)))
     # >= 64K: the character-array branch for MSVC
     pat = bytes(range(256)) + b'??=\\\\"\'\\n\\0007' + b"plain text " * 8
-    add("cconst", "huge", (pat * 120)[:30000])                # escaped length >= 65536
-    add("const", "huge", (b"abcdefghij" * 40 + pat)[:700] * 94)   # 65800 bytes
+    dense = bytes(range(128, 256)) + bytes(range(0, 32)) + b'??="\\\''     # ~3.9 characters per byte when escaped
+    add("cconst", "huge", (dense * 110)[:17000])              # escaped length >= 65536 with few array elements
     if not quick:
+        add("cconst", "huge", (pat * 120)[:30000])
+        add("const", "huge", (b"abcdefghij" * 40 + pat)[:700] * 94)   # 65800 bytes
         add("const", "huge", (pat * 200)[:65535])             # just below the threshold: one literal only
         add("const", "huge", (pat * 200)[:65536])
         add("const", "huge", L.weighted_random_bytes(rng, 70000))
@@ -143,7 +151,7 @@ def run_real_code(jobs, wd):
 # TLC
 
 
-def run_tlc(records, wd, cov, tag):
+def run_tlc(records, wd, cov, tag, workers=None):
     """Judge records with CLiteral.tla.  Returns {id: verdict record} for the non-ok ones."""
     verdicts = {}
     chunks, cur, size = [], [], 0
@@ -158,7 +166,8 @@ def run_tlc(records, wd, cov, tag):
     for ci, chunk in enumerate(chunks):
         f = os.path.join(wd, "records_%s_%d.ndjson" % (tag, ci))
         core.write_ndjson(f, chunk)
-        t = core.tlc_or_die("CLiteral", cfg="CLiteral", env={"RECORDS": f}, timeout=3000, coverage=True, heap="12g", dfs=True)
+        t = core.tlc_or_die("CLiteral", cfg="CLiteral", env={"RECORDS": f}, timeout=3000, coverage=True, heap="12g", dfs=True,
+                            workers=workers)
         done = sum(t.coverage.get(a, (0, 0))[1] for a in ("Finish", "NonPortable", "Reject"))
         if done != len(chunk):
             sys.stderr.write(t.out[-3000:])
@@ -210,7 +219,7 @@ def run(tier, seed):
         lim = "n/a"
         if j["form"] == "split":
             lim = "small"
-        elif j["form"] in ("lit", "const", "cconst", "numtab", "ustr"):
+        elif j["form"] in ("lit", "const", "cconst", "numtab", "ustr", "arrforce"):
             lim = "default"
         return {"form": j["form"], "family": j["family"], "limit": lim, "part": part}
 
@@ -238,13 +247,16 @@ def run(tier, seed):
             rep.disagree(desc_of(j, "n/a"), "hang" if o["error"].startswith("Hang") else "exception",
                          {"job": detail_of(j), "error": o["error"]})
             continue
-        if j["form"] in ("const", "cconst"):
+        if j["form"] in ("const", "cconst", "arrforce"):
             parts = L.parse_const(o["out"])
             if parts is None:
                 rep.disagree(desc_of(j, "n/a"), "unexpected-declaration-shape", {"job": detail_of(j), "emitted": o["out"][:600]})
                 continue
-            if j["form"] == "const" and (len(j["expect"]) >= 65536) != (len(parts) == 2):
+            want_arr = j["form"] == "arrforce" or (j["form"] == "const" and len(j["expect"]) >= 65536)
+            if j["form"] != "cconst" and want_arr != (len(parts) == 2):
                 rep.disagree(desc_of(j, "n/a"), "missing-char-array-branch", {"job": detail_of(j), "emitted": o["out"][:200]})
+            if j["form"] == "arrforce":
+                parts = [x for x in parts if x[0] == "arr"]     # the string part repeats the "const" form
         else:
             parts = [("chr" if j["form"] == "char" else "str", o["out"])]
         for kind, text in parts:
@@ -252,6 +264,21 @@ def run(tier, seed):
             if "\\" in text or '""' in text[1:-1]:
                 nontrivial.add((j["form"], j.get("limit"), kind, bytes(j["expect"])))
     n_impl = len(records)
+    # very long texts are single long behaviours: read them in a TLC run of their own, concurrently
+    long_ids = set(i for i in range(n_impl) if len(records[i]["text"]) > 30000)
+    long_cov = {"states": 0, "distinct_states": 0, "transitions": 0, "tlc": [], "action_coverage": {}}
+    long_box = {}
+
+    def long_run():
+        try:
+            long_box["verdicts"] = run_tlc([records[i] for i in sorted(long_ids)], core.subdir("c11long"), long_cov, "long", workers=2)
+        except BaseException as e:      # SystemExit from core.die included
+            long_box["error"] = e
+
+    long_thread = None
+    if long_ids:
+        long_thread = threading.Thread(target=long_run)
+        long_thread.start()
     cov["evaluations"] = len(jobs)
     cov["distinct_nontrivial"] = len(nontrivial)
 
@@ -313,7 +340,18 @@ def run(tier, seed):
         add_record(meta[i]["kind"], meta[i]["str_text"], e, "corrupt", of=i)
 
     # ---- S: TLC reads every text -------------------------------------------
-    verdicts = run_tlc(records, wd, cov, "main")
+    verdicts = run_tlc([r for r in records if r["id"] not in long_ids], wd, cov, "main")
+    if long_thread is not None:
+        long_thread.join()
+        if "error" in long_box:
+            core.die("TLC run for the long texts failed: %r" % (long_box["error"],))
+        verdicts.update(long_box["verdicts"])
+        for key in ("states", "distinct_states", "transitions"):
+            cov[key] += long_cov[key]
+        cov["tlc"] += long_cov["tlc"]
+        for a, c2 in long_cov["action_coverage"].items():
+            old = cov["action_coverage"].get(a, [0, 0])
+            cov["action_coverage"][a] = [old[0] + c2[0], old[1] + c2[1]]
 
     def v_of(rid):
         return verdicts.get(rid, {}).get("v", "ok")
